@@ -227,8 +227,13 @@ def run_target(contract, registry, classes):
                 res.detail = f"loop invariants/assumptions are contradictory at {where} (canary `False` was discharged)"
                 return res
         # discharge
+        n_bad = 0
         for ob in eng.obligations:
-            smt.discharge(ob)
+            # after two obligations of this target failed to discharge, the rest only get the fast stages (the target is
+            # decided by replay / bounded fall-back anyway; keeps the run time of a check on a broken tree bounded)
+            smt.discharge(ob, quick=n_bad >= 2)
+            if ob.status != "discharged":
+                n_bad += 1
             d = dict(name=ob.name, kind=ob.kind, status=ob.status, backend=ob.backend,
                      seconds=round(ob.seconds, 4), line=ob.lineno, path=ob.trace[-6:])
             if ob.status in ("refuted", "unknown") and ob.model is not None:
